@@ -86,14 +86,14 @@ D_kmeans == Alg(
      RealGt0("tolerance", 100, {10000}), CountGe("max_n_iterations", 1, 300, {20}),
      Sel("init_method", 1, {0, 1}) >>,          \* Random | KMeansPlusPlus (KMeansPara is not reproducible run to run: C20)
   << Ctor1("new", 1), Set1("n_runs", 2), Set1("tolerance", 3), Set1("max_n_iterations", 4), Set1("init_method", 5) >>,
-  {"fit", "fit_with"}, "Invalid hyperparameter: ", "none")
+  {"fit", "fit_with", "fit_empty", "fit_with_empty"}, "Invalid hyperparameter: ", "none")
 
 (* DBSCAN: "min_points must be greater than 1", "tolerance must be greater than 0" *)
 D_dbscan == Alg(
   << CountGe("min_points", 2, 3, {3}), RealGt0("tolerance", 100, {1500000}),
      Sel("nn_algo", 1, {0, 1, 2}) >>,                                      \* LinearSearch | KdTree | BallTree
   << Ctor1("new", 1), Set1("tolerance", 2), Set1("nn_algo", 3) >>,
-  {"transform", "transform_ds"}, "", "none")
+  {"transform", "transform_ds", "transform_empty"}, "", "none")
 
 (* "approximate DBSCAN" is a type alias of DBSCAN in this tree (AppxDbscanParams = DbscanParams), so it
    has no builder of its own *)
@@ -102,7 +102,7 @@ D_dbscan == Alg(
 D_optics == Alg(
   << CountGe("min_points", 2, 3, {3}), RealGt0("tolerance", Inf, {3000000}), Sel("nn_algo", 1, {0, 1, 2}) >>,
   << Ctor1("new", 1), Set1("tolerance", 2), Set1("nn_algo", 3) >>,
-  {"transform"}, "", "none")
+  {"transform", "transform_empty"}, "", "none")
 
 (* Gaussian mixture: "`n_clusters` cannot be 0!", "`tolerance` must be greater than 0!",           *)
 (* reg_covariance: "Non-negative regularization added to the diagonal of covariance",              *)
@@ -113,7 +113,7 @@ D_gmm == Alg(
      Sel("init_method", 0, {0, 1}) >>,                                     \* KMeans | Random
   << Ctor1("new", 1), Set1("tolerance", 2), Set1("reg_covariance", 3), Set1("n_runs", 4), Set1("max_n_iterations", 5),
      Set1("init_method", 6) >>,
-  {"fit"}, "", "none")
+  {"fit", "fit_empty"}, "", "none")
 
 (* elastic net (single and multi-task), range table of ElasticNetParams:                            *)
 (*   penalty [0, inf) | l1_ratio [0.0, 1.0] | tolerance (0, inf) | max_iterations [1, inf)           *)
@@ -122,7 +122,7 @@ D_enet == Alg(
   << RealGe0("penalty", M, {100000}), RealUnit("l1_ratio", 500000, {500000}),
      RealPos("tolerance", 100, {100}), CountGe("max_iterations", 1, 1000, {200}), FreeC("with_intercept", 1, {0, 1}) >>,
   << Set1("penalty", 1), Set1("l1_ratio", 2), Set1("tolerance", 3), Set1("max_iterations", 4), Set1("with_intercept", 5) >>,
-  {"fit"}, "", "none")
+  {"fit", "fit_empty"}, "", "none")
 
 (* logistic regression (binary and multinomial): "alpha must be a positive, finite number" (and      *)
 (* "Setting alpha close to zero removes regularization"), "gradient_tolerance must be a positive,    *)
@@ -131,7 +131,7 @@ D_logistic == Alg(
   << RealPos("alpha", M, {100000}), RealPos("gradient_tolerance", 100, {1000}), FreeC("max_iterations", 100, {30}),
      Sel("with_intercept", 1, {0, 1}) >>,
   << Set1("alpha", 1), Set1("gradient_tolerance", 2), Set1("max_iterations", 3), Set1("with_intercept", 4) >>,
-  {"fit"}, "", "none")
+  {"fit", "fit_empty"}, "", "none")
 
 (* Tweedie GLM: "`alpha` set to 0 is equivalent to unpenalized GLM" / "penalty should be positive",  *)
 (* "tweedie distribution power should not be in (0, 1)"                                              *)
@@ -140,7 +140,7 @@ D_tweedie == Alg(
      FreeC("max_iter", 100, {30}), Sel("fit_intercept", 1, {0, 1}),
      NoRd(Off(Sel("link", 1, {1}))) >>,   \* Log, set explicitly (default: chosen from power; Identity with power >= 1 does not terminate)
   << Set1("alpha", 1), Set1("power", 2), Set1("max_iter", 3), Set1("fit_intercept", 4), Set1("link", 5) >>,
-  {"fit"}, "", "none")
+  {"fit", "fit_empty"}, "", "none")
 
 (* SVM, crate documentation: C "should be in the interval (0, inf)", Nu "should be in the interval   *)
 (* (0, 1]" but nu_weight: "The Nu value should lie in range [0, 1]" => nu = 0 contradictory.          *)
@@ -160,14 +160,14 @@ D_svc == Alg(
      St("pos_neg_weights", 2, << <<2, 1>>, <<3, 2>>, <<4, 0>>, <<5, 0>> >>, FALSE),
      St("nu_weight", 1, << <<4, 1>>, <<5, 1>>, <<2, 0>>, <<3, 0>> >>, FALSE),
      St("with_platt_params", 3, << <<6, 1>>, <<7, 2>>, <<8, 3>> >>, FALSE), Set1("kernel", 9), Set1("shrinking", 10) >>,
-  {"fit"}, "", "none")
+  {"fit", "fit_empty"}, "", "none")
 D_svr == Alg(
   << Skip(UndocR("eps", 0, 0, {1000}), {0}), RealGt0("c", M, {2 * M}), UndocR("loss_eps", 0, M, {100000}),
      Off(SvmNu), Off(RealGt0("nu_c", 0, {M})), NoRd(Sel("kernel", 0, {0, 1, 2})), Sel("shrinking", 0, {0, 1}) >>,
   << Set1("eps", 1),
      St("c_svr", 2, << <<2, 1>>, <<3, 2>>, <<4, 0>>, <<5, 0>> >>, FALSE),
      St("nu_svr", 2, << <<4, 1>>, <<5, 2>>, <<2, 0>>, <<3, 0>> >>, FALSE), Set1("kernel", 6), Set1("shrinking", 7) >>,
-  {"fit"}, "", "none")
+  {"fit", "fit_empty"}, "", "none")
 
 (* decision tree: "Minimum impurity decrease should be greater than zero"; other limits undocumented *)
 D_tree == Alg(
@@ -176,11 +176,11 @@ D_tree == Alg(
      Sel("split_quality", 0, {0, 1}) >>,                                   \* Gini | Entropy
   << Set1("min_impurity_decrease", 1), Set1("max_depth", 2), Set1("min_weight_split", 3), Set1("min_weight_leaf", 4),
      Set1("split_quality", 5) >>,
-  {"fit"}, "", "none")
+  {"fit", "fit_empty"}, "", "none")
 
 (* naive Bayes range tables: var_smoothing [0, inf), alpha [0, inf) *)
-D_gnb == Alg(<< RealGe0("var_smoothing", 0, {1000}) >>, << Set1("var_smoothing", 1) >>, {"fit", "fit_with"}, "", "none")
-D_mnb == Alg(<< RealGe0("alpha", M, {500000}) >>, << Set1("alpha", 1) >>, {"fit", "fit_with"}, "", "none")
+D_gnb == Alg(<< RealGe0("var_smoothing", 0, {1000}) >>, << Set1("var_smoothing", 1) >>, {"fit", "fit_with", "fit_empty", "fit_with_empty"}, "", "none")
+D_mnb == Alg(<< RealGe0("alpha", M, {500000}) >>, << Set1("alpha", 1) >>, {"fit", "fit_with", "fit_empty", "fit_with_empty"}, "", "none")
 
 (* FTRL: "alpha must be positive and finite", "beta must be positive and finite" with default beta   *)
 (* 0.0 (so 0 is inside for beta), l1_ratio / l2_ratio "must be between 0.0 and 1.0" / "[0, 1]"        *)
@@ -188,7 +188,7 @@ D_ftrl == Alg(
   << RealPos("alpha", 5000, {100000}), RealGe0("beta", 0, {M}), RealUnit("l1_ratio", 500000, {500000}),
      RealUnit("l2_ratio", 500000, {500000}) >>,
   << Set1("alpha", 1), Set1("beta", 2), Set1("l1_ratio", 3), Set1("l2_ratio", 4) >>,
-  {"fit_with"}, "", "none")
+  {"fit_with", "fit_with_empty"}, "", "none")
 
 (* PLS: "The tolerance is should not be negative, NaN or inf", "The maximal number of iterations     *)
 (* should be positive" (ZeroMaxIter); n_components is checked against the data, not by the guard     *)
@@ -196,20 +196,20 @@ D_pls == Alg(
   << NoRd(FreeC("n_components", 1, {1, 2})), NoRd(RealGe0("tolerance", 1, {100})), NoRd(CountGe("max_iterations", 1, 500, {100})),
      NoRd(Sel("algorithm", 0, {0, 1})), NoRd(Sel("scale", 1, {0, 1})) >>,  \* Nipals | Svd ; scale false | true
   << Ctor1("new", 1), Set1("tolerance", 2), Set1("max_iterations", 3), Set1("algorithm", 4), Set1("scale", 5) >>,
-  {"fit"}, "", "none")
+  {"fit", "fit_empty"}, "", "none")
 
 (* t-SNE: "negative perplexity"; approx_threshold "lies in range (0, inf) where a value of 0         *)
 (* disables approximation" + "negative approximation threshold" => 0 contradictory                   *)
 D_tsne == Alg(
   << FreeC("embedding_size", 2, {2}), RealGe0("perplexity", 5 * M, {M}), RealPos("approx_threshold", 500000, {500000}) >>,
   << Ctor1("new", 1), Set1("perplexity", 2), Set1("approx_threshold", 3) >>,
-  {"transform", "transform_ds"}, "", "none")
+  {"transform", "transform_ds", "transform_ds_empty", "transform_empty"}, "", "none")
 
 (* FastICA: "tolerance should be positive" (guard: tol < 0) *)
 D_ica == Alg(
   << RealPos("tol", 100, {1000}), FreeC("max_iter", 200, {50}), Sel("gfunc", 0, {0, 1, 2}) >>,   \* Logcosh(1) | Exp | Cube
   << Set1("tol", 1), Set1("max_iter", 2), Set1("gfunc", 3) >>,
-  {"fit"}, "", "none")
+  {"fit", "fit_empty"}, "", "none")
 
 (* diffusion map: "Number of steps zero in diffusion map operator"; embedding_size 0 is rejected with *)
 (* a garbled message and has no documented range                                                      *)
@@ -223,13 +223,14 @@ D_diffmap == Alg(
 D_rproj == Alg(
   << Off(CountGe("target_dim", 1, 0, {2})), Fd("eps", "real", 0, "open", M, "open", 100000, {500000}) >>,
   << St("target_dim", 1, << <<1, 1>>, <<2, 0>> >>, FALSE), St("eps", 1, << <<2, 1>>, <<1, 0>> >>, FALSE) >>,
-  {"fit"}, "", "none")
+  {"fit", "fit_empty"}, "", "none")
 
 (* Platt scaling: "maxiter should be larger than zero", "minstep should be positive", "sigma should be positive" *)
 D_platt == Alg(
-  << CountGe("maxiter", 1, 100, {50}), RealPos("minstep", 0, {1}), RealPos("sigma", 0, {1}) >>,
+  \* (minstep = 0 passes checking and the line search then need not terminate -- on empty input it never does: not generated)
+  << CountGe("maxiter", 1, 100, {50}), Skip(RealPos("minstep", 0, {1}), {0}), RealPos("sigma", 0, {1}) >>,
   << Set1("maxiter", 1), Set1("minstep", 2), Set1("sigma", 3) >>,
-  {"fit_with"}, "", "none")
+  {"fit_with", "fit_with_empty"}, "", "none")
 
 (* hierarchical clustering: "The stopping condition .. is not valid" -- no range is documented *)
 D_hier == Alg(
@@ -251,7 +252,9 @@ D_countvec == Alg(
      Off(FreeC("max_features", 0, {2, 5})) >>,
   << St("n_gram_range", 2, << <<1, 1>>, <<2, 2>> >>, FALSE), St("document_frequency", 2, << <<3, 1>>, <<4, 2>> >>, FALSE),
      Set1("convert_to_lowercase", 5), Set1("normalize", 6), Set1("tokenizer_regex", 7), Set1("max_features", 8) >>,
-  {"fit", "fit_vocabulary"}, "", "countvec")
+  \* fit_files: documents read from files; fit_files_missing: one of the paths does not exist (input that fails
+  \* on its own -- on an invalid builder the parameter error must still be the result)
+  {"fit", "fit_vocabulary", "fit_files", "fit_files_missing", "fit_empty"}, "", "countvec")
 
 \* "...32" = the same builder instantiated with f32 instead of f64
 Algs == {"kmeans", "kmeans32", "dbscan", "dbscan32", "tree32", "optics", "gmm", "enet", "mtenet", "logistic", "mlogistic", "tweedie",
